@@ -3,6 +3,7 @@ Per-property tables for /verif/check: which theorems must exist and be axiom-cle
 implementation observation is compared with the model/spec answer, what counts as a
 non-trivial case, and the wording that goes into the evidence.
 """
+import re
 
 def split_ms(model):
     """model answer `M <x> ;; S <y>` -> (x, y|None)"""
@@ -26,6 +27,46 @@ def cmp_default(rq, impl, model):
     elif impl != m:
         out.append({"kind": "impl-vs-model", "request": rq, "impl": impl, "model": m, "spec": s})
     return out
+
+
+# ---------------------------------------------------------------- status lines of the command line
+# main.rs announces what it does with lines of the shape `{left:>12} {right}` on standard output
+# ("  Assembling target f.asm", "     Running emitted binary", "   Completed target f.asm", …).
+# Their wording is no property's business: they are removed from BOTH sides (implementation and
+# model, which prints them too) before process-mode outputs are compared.
+_STATUS_LINE = re.compile(rb"^( *)([A-Za-z][A-Za-z-]*) [^\n]*$")
+
+
+def _is_status_line(line):
+    m = _STATUS_LINE.match(line)
+    if not m:
+        return False
+    pad, word = len(m.group(1)), len(m.group(2))
+    return pad + word == 12 or (pad == 0 and word > 12)
+
+
+def strip_status_hex(h):
+    if h in ("", "-"):
+        return h
+    try:
+        b = bytes.fromhex(h)
+    except ValueError:
+        return h
+    parts = b.split(b"\n")
+    kept = [ln for i, ln in enumerate(parts) if not (_is_status_line(ln) and i < len(parts) - 1)]
+    out = b"\n".join(kept).hex()
+    return out if out else "-"
+
+
+def canon_proc(text):
+    """`fin <status> <hex stdout>` and `out=<hex stdout>` fields with the status lines removed."""
+    text = re.sub(r"\bfin (\d+) ([0-9a-f]+|-)", lambda m: "fin %s %s" % (m.group(1), strip_status_hex(m.group(2))), text)
+    text = re.sub(r"\bout=([0-9a-f]+|-)", lambda m: "out=" + strip_status_hex(m.group(1)), text)
+    return text
+
+
+def cmp_proc(rq, impl, model):
+    return cmp_default(rq, canon_proc(impl), canon_proc(model))
 
 
 def first_word(rq, impl):
@@ -146,7 +187,7 @@ PROPS["C06"] = {
         "Lace.C03.load_spec",
     ],
     "needs_bin": True,
-    "compare": cmp_default,
+    "compare": cmp_proc,
     "classify": lambda rq, impl: rq.split(" ", 1)[0] + ":" + " ".join(impl.split(" ")[:2 if impl.startswith("fin") else 1]),
     "nontrivial": lambda rq, impl: True,
     "group": lambda d: d["request"].split(" ", 1)[0],
@@ -787,6 +828,7 @@ _C18_WORDS = ("push", "pop", "call", "rets")
 def c18_compare(rq, impl, model):
     """Model / spec comparison plus predicates checked directly on the implementation:
     F18/R18 answers are `<flag on> ## <flag off>`."""
+    impl, model = canon_proc(impl), canon_proc(model)
     out = cmp_default(rq, impl, model)
     f = rq.split(" ")
     if f[0] == "F18" and " ## " in impl:
